@@ -24,7 +24,7 @@ mkdir -p /tmp/seedhold-$id$suf; for d in $demos; do mkdir -p /tmp/seedhold-$id$s
 echo "--- existing tests of touched packages WITH change (must pass):"
 go test -count=1 $touched $demopkgs 2>&1 | grep -v "no test files" | tail -6
 for d in $demos; do mv /tmp/seedhold-$id$suf/$d $d; done; rm -rf /tmp/seedhold-$id$suf
-git stash -q
+git apply -R $out/patch.diff
 echo "--- demo WITHOUT change (must pass):"
 go test -count=1 -run 'Seeded|seeded|Demo' $demopkgs 2>&1 | tail -3
-git stash pop -q
+git apply $out/patch.diff
